@@ -59,7 +59,7 @@ SIGS = {"axl": (axl_m_sigs, axl_s_sigs), "wb": (wb_m_sigs, wb_s_sigs)}
 
 def init_byte(a):
     """Initial content of every memory partner and reference memory."""
-    return (a * 37 + 11) & 0xff
+    return (a * 37 + (a >> 8) * 101 + (a >> 16) * 59 + (a >> 24) * 17 + 11) & 0xff
 
 
 class PortInst:
@@ -201,6 +201,33 @@ class Mem:
                 self.wr(base + k, (data >> (8 * k)) & 0xff)
 
 
+class SetMem:
+    """Reference memory of the oracles: per byte the set of values a correct memory may hold (one value, unless a
+    write to the byte was answered with an error: then the old and the new value are both admissible)."""
+
+    def __init__(self, init=init_byte):
+        self.init = init
+        self.m = {}
+
+    def rd(self, a):
+        return self.m[a] if a in self.m else {self.init(a)}
+
+    def write_word(self, base, nb, strb, data, ok=True):
+        for k in range(nb):
+            if (strb >> k) & 1:
+                v = (data >> (8 * k)) & 0xff
+                self.m[base + k] = {v} if ok else (set(self.rd(base + k)) | {v})
+
+
+def addr_pool(rng, abits, nb, n=10):
+    """A small pool of addresses (so that reads hit earlier writes): low words, a few random ones, the top word."""
+    top = (1 << abits) - 1
+    pool = [(k * nb) & top for k in range(4)] + [top & ~(nb - 1)]
+    while len(pool) < n:
+        pool.append(rng.getrandbits(abits) & ~(nb - 1))
+    return pool
+
+
 class AxlMaster:
     """Protocol-following AXI-Lite master.  Per channel a FIFO of items with a start delay; an item is presented
     (valid + payload) until the cycle its ready is seen.  `max_out` bounds the transactions in flight per
@@ -218,12 +245,13 @@ class AxlMaster:
         self.out_r = 0
 
     def _addr(self, rng):
-        if self.addrs:
-            a = rng.choice(self.addrs)
-        else:
-            a = rng.getrandbits(self.abits)
-        if self.align or rng.random() < 0.8:
+        if self.addrs is None:
+            self.addrs = addr_pool(rng, self.abits, self.nb)
+        a = rng.choice(self.addrs) if rng.random() < 0.9 else rng.getrandbits(self.abits)
+        if self.align:
             a &= ~(self.nb - 1)
+        else:
+            a |= rng.getrandbits(self.abits) & (self.nb - 1)
         return a & ((1 << self.abits) - 1)
 
     def drive(self, rng):
@@ -289,7 +317,9 @@ class WbMaster:
     def drive(self, rng):
         if self.cur is None and rng.random() < self.p_start:
             full = (1 << self.nb) - 1
-            adr = rng.choice(self.addrs) if self.addrs else rng.getrandbits(self.adr_bits)
+            if self.addrs is None:
+                self.addrs = addr_pool(rng, self.adr_bits, 1)
+            adr = rng.choice(self.addrs) if rng.random() < 0.9 else rng.getrandbits(self.adr_bits)
             sel = rng.choice(self.sels) if self.sels else (full if rng.random() < 0.5 else rng.randint(1, full))
             self.cur = {"cyc": 1, "stb": 1, "we": 1 if rng.random() < self.p_we else 0, "adr": adr, "sel": sel,
                         "datw": rng.getrandbits(8 * self.nb)}
@@ -469,7 +499,7 @@ class AxlMemOracle:
 
     def __init__(self, nb, amap, mem=None, check_data=True):
         self.nb, self.amap = nb, amap
-        self.mem = mem or Mem()
+        self.mem = mem or SetMem()
         self.aw, self.w = [], []          # accepted, not yet answered
         self.wr_inflight = []             # [base, strb, data]  (AW and W both seen on the wires)
         self.rd = []                      # reads presented/accepted: dict(base, adm: [set]*nb, accepted)
@@ -499,7 +529,7 @@ class AxlMemOracle:
         if d["arvalid"] and self.cur_ar is None:
             self.cur_ar = d["araddr"]
             base = self.amap(d["araddr"])
-            adm = [{self.mem.rd(base + k)} for k in range(nb)]
+            adm = [set(self.mem.rd(base + k)) for k in range(nb)]
             r = {"base": base, "adm": adm, "accepted": False}
             self.rd.append(r)
             for (b, s, dat) in self.wr_inflight:
@@ -524,16 +554,14 @@ class AxlMemOracle:
             a, (data, strb) = self.aw.pop(0), self.w.pop(0)
             base = self.amap(a)
             self.n_rsp["w"] += 1
-            if d["bresp"] == 0:
-                self.mem.write_word(base, nb, strb, data)
+            self.mem.write_word(base, nb, strb, data, ok=(d["bresp"] == 0))
             self.events.append(("w", base, strb, data, d["bresp"]))
             # no longer in flight
             for k, (b, s, dat) in enumerate(self.wr_inflight):
                 if (b, s, dat) == (base, strb, data):
                     del self.wr_inflight[k]
                     break
-            if d["bresp"] == 0:
-                self._adm_add(base, strb, data)
+            self._adm_add(base, strb, data)
         if d["rvalid"] and d["rready"]:
             if not self.rd or not self.rd[0]["accepted"]:
                 return "read response without an accepted address"
@@ -577,15 +605,14 @@ class WbMemOracle:
     def __init__(self, nb, amap=None, mem=None):
         self.nb = nb
         self.amap = amap or (lambda adr: adr * nb)
-        self.mem = mem or Mem()
+        self.mem = mem or SetMem()
         self.events = []
 
     def observe(self, d):
         if d["cyc"] and d["stb"] and d["ack"]:
             base = self.amap(d["adr"])
             if d["we"]:
-                if not d["err"]:
-                    self.mem.write_word(base, self.nb, d["sel"], d["datw"])
+                self.mem.write_word(base, self.nb, d["sel"], d["datw"], ok=not d["err"])
                 self.events.append(("w", base, d["sel"], d["datw"], 2 if d["err"] else 0))
             else:
                 self.events.append(("r", base, d["sel"], d["datr"], 2 if d["err"] else 0))
@@ -593,9 +620,9 @@ class WbMemOracle:
                     for k in range(self.nb):
                         if (d["sel"] >> k) & 1:
                             v = (d["datr"] >> (8 * k)) & 0xff
-                            if v != self.mem.rd(base + k):
-                                return "read of byte address 0x%x returned 0x%02x, reference memory holds 0x%02x" % (
-                                    base + k, v, self.mem.rd(base + k))
+                            if v not in self.mem.rd(base + k):
+                                return "read of byte address 0x%x returned 0x%02x, reference memory holds %s" % (
+                                    base + k, v, "/".join("0x%02x" % x for x in sorted(self.mem.rd(base + k))))
         elif d["ack"] and not (d["cyc"] and d["stb"]):
             return "ack without cyc & stb"
         return None
